@@ -243,7 +243,7 @@ func cmdCheck(args []string) {
 				continue
 			}
 			nViol++
-			rp := filepath.Join(outDir, fmt.Sprintf("%s_%s_%d.json", pid, r.Name, i))
+			rp := filepath.Join(outDir, fmt.Sprintf("%s_%s_%s_%d.json", pid, r.Name, lastSeg(r.Pkg), i))
 			rb, _ := json.MarshalIndent(map[string]interface{}{"property": pid, "tier": *tier, "violation": v}, "", " ")
 			os.WriteFile(rp, rb, 0o644)
 			lines = append(lines, fmt.Sprintf("VIOLATION property=%s replay=%s   # %s/%s: %s @%s", pid, rp, v.Harness, v.Label, v.Msg, v.Pos))
